@@ -18,6 +18,8 @@ for f in sorted(glob.glob(os.path.join(ROOT, "seeded", "*", "meta.json"))):
             elif i == 0:
                 missed_first = True
     status = "caught" if caught else "MISSED"
+    if not caught and m.get("outside_the_quantifier"):
+        status = "not reported (outside the property's quantifier, see 14.2)"
     if caught and missed_first:
         status = "caught after strengthening"
     rows.append((name, (m.get("title") or "").replace("|", "/")[:150], (m.get("needs_to_manifest") or "").replace("|", "/").replace("\n", " ")[:170], status, "; ".join(caught) if caught else "-", m.get("note", "")))
@@ -26,5 +28,6 @@ print("|---|---|---|---|---|")
 for r in rows:
     print("| %s | %s | %s | %s | %s |" % r[:5])
 n = len(rows)
-c = sum(1 for r in rows if r[3] != "MISSED")
-print("\n%d seeded changes kept, %d caught (%d only after a check was strengthened), %d missed." % (n, c, sum(1 for r in rows if "after" in r[3]), n - c))
+c = sum(1 for r in rows if r[3].startswith("caught"))
+o = sum(1 for r in rows if r[3].startswith("not reported"))
+print("\n%d seeded changes kept, %d caught (%d only after a check was strengthened), %d outside the quantifier of its property, %d missed." % (n, c, sum(1 for r in rows if "after" in r[3]), o, n - c - o))
